@@ -27,6 +27,7 @@ class CalculateCrc32(Contract):
         return c.int("crc")
 
     def ensures(self, c, old, result, data, value, blocksize):
+        data = c.view(data)  # a bytearray argument is used by value
         return [("equals-crc32", result == CRC.crc(data, value)), ("range", And(result >= 0, result < (1 << 32)))]
 
     def loops(self):
